@@ -133,6 +133,12 @@ func (w *W) value(a *scen.Arg) any {
 		if v, ok := w.shared[a.Ref]; ok {
 			return v
 		}
+		if w.sch != nil {
+			// tasks never write the table (it would be a harness data race in the race world)
+			b := *a
+			b.Ref = 0
+			return w.value(&b)
+		}
 		b := *a
 		b.Ref = 0
 		v := w.value(&b)
